@@ -248,6 +248,15 @@ MUTS = [
      "                log.debug('Defining bitmap for reuse')\n                state.most_recent_bitmap_is_for_reuse = False"),
     ('G5', 'preserve', 'C07', K, "                state.most_recent_bitmap_is_for_reuse = False\n                state.bitmap_definition_state = BITMAP_WAITING_FOR_BIT\n                state.n_031031 = 0",
      "                state.most_recent_bitmap_is_for_reuse = False\n                state.n_031031 = 0\n                state.bitmap_definition_state = BITMAP_WAITING_FOR_BIT"),
+    # ---- stage M (w5-codersrc, round 3): process_members, the generated descriptor type -----------------------
+    ('M1', 'change', 'C01', K, "                    if not (1 <= X <= 9 or X == 31):  # skipping", "                    if not (1 <= X <= 8 or X == 31):  # skipping"),
+    ('M2', 'change', 'C01', K, "                state.data_not_present_count -= 1\n", "                state.data_not_present_count -= 2\n"),
+    ('M3', 'change', 'C01', K, "            if state.nbits_of_new_refval and member_type is ElementDescriptor:", "            if state.nbits_of_new_refval and member_type is OperatorDescriptor:"),
+    ('M4', 'change', 'C01', K, "                self.process_skipped_local_descriptor(state, bit_operator, member)\n                continue\n",
+     "                self.process_skipped_local_descriptor(state, bit_operator, member)\n"),
+    ('M5', 'preserve', 'C01', K, "            if state.bitmap_definition_state != BITMAP_NA:\n                self.process_bitmap_definition(state, bit_operator, member)",
+     "            if not state.bitmap_definition_state == BITMAP_NA:\n                self.process_bitmap_definition(state, bit_operator, member)"),
+    ('M6', 'unsupported', 'C01', D, "        super(ReplicationDescriptor, self).__init__(id_)\n        self.members = members", "        super(ReplicationDescriptor, self).__init__(id_)\n        self.items = members"),
 ]
 
 
